@@ -40,7 +40,7 @@ def run(tier, only=None):
     def work(it):
         f, op = it
         return check_op(built, f, op, tier, timeout=timeout)
-    res = pmap(work, items, nproc=NCPU, timeout=timeout * 4)
+    res = pmap(work, items, nproc=NCPU, timeout=max(1800, timeout * 4))
     obs = []
     merr = None
     for (f, op), (st, val) in zip(items, res):
